@@ -4,10 +4,18 @@ from txcommon import *
 class C13(TxCheck):
     ID = "C13"
     MODE = "c13"
-    N_QUICK = 60
+    LEVEL = "exploration"   # until the per-event preservation lemmas are all closed (coq/Tx/PROOFS.md)
+    N_QUICK = 50
     N_THOROUGH = 1500
-    RULE = "x"
     KINDS = ["tx_details_differ_from_ledger", "unconfirmed_set_differs_from_ledger", "store_error"]
+    RULE = ("C01's generator; after EVERY event: TxDetails and UniqueTxDetails(unmined) for every transaction of the universe "
+            "(known, removed, never seen), RangeTransactions over {0..-1, -1..0, 0..tip, tip..0, -1..-1, tip..tip, tip+1..-1, 1..tip-1, tip-1..1} "
+            "(groups per block in both directions, unmined group position), UnminedTxHashes - compared with the model and with spec_details. "
+            "non-trivial = history with a confirmation and a reorg or removal; distinct by input")
+
+    def nontrivial(self, c):
+        t = set(c.get("tags", []))
+        return "ev_confirm" in t and bool(t & {"reorg_depth_1", "reorg_depth_2", "reorg_depth_3", "conflict_confirmed", "ev_abandon"})
 
 
 CHECK = C13
